@@ -266,6 +266,15 @@ PROPS = {
                       "requires a free slot in the parent's own window at every start. Non-trivial = some windowed scheduler "
                       "has more direct jobs than its window.",
                  nontrivial=has_tight_window),
+    "C12": RProp("C12", 2, [120, 10, 70], profile={"window": 0.6, "edge": 0.6, "tie": 0.7, "exc": 0.3, "nested": 0.3, "never": 0.05,
+                                                   "yields": 0.4},
+                 rule="C12: whenever the virtual clock moves, in the state implied by the events so far every job of a "
+                      "scheduler in its main loop that has not started must have a requirement that is not done, or be queued "
+                      "for a slot of a window in which exactly jobs_window direct jobs are executing (monitor chk12); no start "
+                      "before the requirements (chk01) and no window overrun (chk07); acceptance at level 2 requires each clock "
+                      "jump to happen in a quiescent model state and to reach exactly the next deadline. Non-trivial = the "
+                      "tree has a requirement edge or a windowed scheduler with more direct jobs than its window.",
+                 nontrivial=lambda cfg, r: has_edges(cfg, r) or has_tight_window(cfg, r)),
     "C14": RProp("C14", 0, [140], profile={"window": 0.6, "exc": 0.4},
                  rule="C14: at every quiescent point and after the run, the public predicates of every job (is_idle, "
                       "is_scheduled, is_running, is_done, result/exception identity) are compared with the state implied "
